@@ -34,7 +34,7 @@ def logq(q):
 
 def cases(tier, rnd):
     out = []
-    for i in range(120 if tier == "quick" else 600):
+    for i in range(300 if tier == "quick" else 1500):
         n = rnd.randint(1, 8)
         S = rnd.randint(1, 2)
         G = rnd.randint(3, 6)
